@@ -16,7 +16,7 @@ RULE = ('per stage (blocked, discard, downsample, decimate, rms, derivative, iir
         'ALL compositions (chunkings) of a stream of N samples (quick: N=7 for 1-D/2-channel x plain/annotated, N=10 for 1-D annotated; '
         'thorough: N=9 resp. 12) with a parameter that does not divide N, then seeded random chunkings of streams up to 400 samples with '
         'random parameters (q 1..5, block sizes 1..50, discard counts 0..N+2, rms block 1..50, filter orders 1..3, baseline 2..N+2), '
-        '1-D and 2-channel, plain ndarray and PipelineData (s0 0 or a non-zero multiple of the block length), fs in {1000, 44100, 195312.5}; '
+        '1-D and 2-channel, plain ndarray and PipelineData; annotated streams start at 0, at positive and at NEGATIVE s0 (pre-stimulus), half of them chosen so that a counter of the stage (output-sample counter, s0 of the held block, discard/block counter) is exactly 0, +-1 or its initial value at a chunk boundary of the chunking, plus dedicated chunkings cut exactly at / next to that point; fs in {1000, 44100, 195312.5}; '
         'event_rate: all compositions of spans of 9 (thorough 11) samples and random spans up to 300 with random events, window 1..40, step 1..40. '
         'Non-trivial: at least two chunks and at least one chunk boundary that is not a multiple of the stage period '
         '(or, for stateful filters/derivative/auto_th, any interior boundary). Distinct = distinct case dictionaries.')
@@ -643,21 +643,77 @@ def _params(stage, rng, N, exhaustive):
     raise KeyError(stage)
 
 
-def _case(stage, p, two, ann, sizes, rng, fs=None):
+def _divisor(stage, p):
+    """output samples per input sample = 1 / divisor"""
+    return {'downsample': p.get('q'), 'decimate': p.get('q'), 'rms': p.get('n')}.get(stage) or 1
+
+
+def _s0_choice(stage, p, sizes, rng):
+    """First sample number of an annotated stream.  Besides 0 and positive starts: NEGATIVE starts (pre-stimulus
+    streams), chosen so that the counters a stage keeps (output-sample counter s0 + emitted, the s0 of the block it is
+    holding, discard / block counters) pass through exactly 0, +-1 and through their own initial value at a chunk
+    boundary of THIS chunking (a counter that reaches a sentinel-like value must not be re-initialised)."""
+    dv = _divisor(stage, p)
+    per = p.get('n', 1) if stage == 'rms' else 1          # rms needs n | s0 (float division of s0)
+    bounds, acc = [], 0
+    for n in sizes:
+        acc += n
+        bounds.append(acc)
+    P = rng.choice(bounds)                                 # input samples consumed at some chunk boundary
+    E = P // dv                                            # output samples emitted by then
+    if stage == 'discard':
+        E = max(P - p['d'], 0)
+    aligned = [-E, -P, 1 - P, -E - 1, 1 - E, -(P // dv) * dv]
+    plain = [0, 0, 60, 7, -1, -rng.randint(1, 40), -rng.randint(1, 400)]
+    s0 = rng.choice(aligned) if rng.random() < 0.5 else rng.choice(plain)
+    return s0 * per
+
+
+def _case(stage, p, two, ann, sizes, rng, fs=None, s0=None):
     fs = fs or rng.choice(FSS)
-    per = {'rms': p.get('n', 1)}.get(stage, 1)
-    s0 = rng.choice([0, 0, 60 * per, 7 * per]) if ann else 0
     if stage == 'mc_reference':
         two = True
     p = dict(p)
+    if s0 is None:
+        s0 = _s0_choice(stage, p, sizes, rng)
+    if not ann:
+        s0 = 0
     if stage == 'auto_th':
         p['fsarg'] = rng.choice(['auto', 'none', 'value']) if ann else 'value'
     return {'stage': stage, 'p': p, 'two': bool(two), 'ann': bool(ann), 's0': s0, 'fs': fs,
             'sizes': list(sizes), 'seed': rng.randint(0, 10 ** 6)}
 
 
-def _er_case(rng, sizes, bsz, stp):
-    lo = rng.choice([0, 0, 17])
+def _aligned_cases(stage, rng, reps):
+    """annotated streams starting at a negative s0 with a chunk boundary exactly where the stage's running counter
+    reaches 0 (and one sample before / after it), then arbitrary further chunks"""
+    for _ in range(reps):
+        N0 = rng.randint(4, 40)
+        p = _params(stage, rng, N0, False)
+        dv = _divisor(stage, p)
+        per = p.get('n', 1) if stage == 'rms' else 1
+        k = rng.randint(1, 12)                              # the counter starts at -k (output samples)
+        for extra in (0, 1, dv - 1 if dv > 1 else 2):
+            first = dv * k + extra + (p['d'] if stage == 'discard' else 0)
+            head = rng.choice([[first], _rand_sizes(rng, first, 6)])
+            tail = _rand_sizes(rng, rng.randint(1, 3 * dv + 8), 6)
+            sizes = head + tail
+            if stage == 'auto_th':
+                p = dict(p, B=max(2, min(p['B'], sum(sizes))))
+            for s0 in sorted({-k * per, -dv * k * per, -first * per, (1 - first) * per}):
+                yield _case(stage, p, rng.random() < 0.5, True, sizes, rng, s0=s0)
+
+
+def _er_case(rng, sizes, bsz, stp, lo=None):
+    if lo is None:
+        bounds, acc = [], 0
+        for n in sizes:
+            acc += n
+            bounds.append(acc)
+        P = rng.choice(bounds)
+        # s0 = lo + block_size / 2 counts emitted windows: let it (and the span start) pass through 0
+        lo = rng.choice([0, 0, 17, -1, -P, -rng.randint(1, 60), -(bsz // 2) - rng.randint(0, 6),
+                         -(bsz // 2) - max(0, (P - bsz - 1) // stp + 1)])
     N = sum(sizes)
     dens = rng.choice([0.05, 0.2, 0.5])
     events = [lo + i for i in range(N) if rng.random() < dens]
@@ -686,8 +742,12 @@ def cases(tier, rng):
                 p['q'] = 4
             if 'bs' in p:
                 p['bs'] = 4
-            for sizes in compositions(n_big):
-                yield _case(stage, p, False, True, sizes, rng)
+            per = p.get('n', 1) if stage == 'rms' else 1
+            # every chunking of n_big samples, the stream starting at -1 or -2 output samples (and at 0 / positive):
+            # with all compositions present, every counter passes through 0 at a chunk boundary in many of them
+            for k, sizes in enumerate(compositions(n_big)):
+                yield _case(stage, p, False, True, sizes, rng, s0=[-1, -2, 0, -4, 60, -3][k % 6] * per)
+        yield from _aligned_cases(stage, rng, (2 if stateless else 8) if quick else (10 if stateless else 120))
         for _ in range((20 if stateless else 120) if quick else (200 if stateless else 3000)):
             N = rng.choice([rng.randint(1, 30), rng.randint(1, 120), rng.randint(1, 400)])
             p = _params(stage, rng, N, False)
@@ -696,9 +756,9 @@ def cases(tier, rng):
                 ann = True
             yield _case(stage, p, two, ann, _rand_sizes(rng, N, 6), rng)
     # event_rate
-    for (bsz, stp) in ([(3, 2)] if quick else [(3, 2), (2, 3), (4, 1)]):
-        for sizes in compositions(9 if quick else 11):
-            yield _er_case(rng, sizes, bsz, stp)
+    for (bsz, stp) in ([(3, 2), (4, 1)] if quick else [(3, 2), (2, 3), (4, 1)]):
+        for k, sizes in enumerate(compositions(9 if quick else 11)):
+            yield _er_case(rng, sizes, bsz, stp, lo=[0, -2, -3, -bsz // 2 - 1, 17, -9][k % 6])
     for _ in range(150 if quick else 3000):
         N = rng.choice([rng.randint(1, 40), rng.randint(1, 300)])
         yield _er_case(rng, _rand_sizes(rng, N, 8), rng.choice([1, 2, 3, 5, rng.randint(1, 40)]),
